@@ -78,6 +78,18 @@ PROPS = {
         partial=['returned_on_every_exit_partial (full clause is false: returned_on_every_exit_false, finding F4)',
                  'nested borrowing from a borrowed share is covered by the machine correspondence and the assert in borrow(), not by a theorem'],
     ),
+    'C01': dict(
+        gen=['Kernel', 'Timing'], props=['C01', 'Skeletons'], model=['Prim/KernelModel', 'Machine/Kernel', 'Machine/Run', 'Judge/Judges'], harness='c01',
+        trusted_base=KERNEL_TB + MACHINE_TB + [
+            'shape templates (exact AST match, else broken obligation): Loop.schedule/_run_events/_run_coroutine/__init__/run, Activation.__bool__, '
+            'HQWaitQueue/SDWaitQueue push/pop, StateHandler.assign, usim.run',
+            'heapq and sortedcontainers by contract (pop = smallest key)',
+        ],
+        assumptions=['Layer-K theorems hold for every activity behaviour that respects the assertion of Loop.schedule; that every primitive '
+                     'respects it is checked by the exact trace correspondence (debug mode), not proved',
+                     'exact rational time; float absorption (t + d == t) is outside the theorems'],
+        partial=['schedule_guard_respected for all primitive frames is not proved (tied by correspondence)'],
+    ),
 }
 
 #: texts for MANIFEST.json (level, note, technique, DESIGN.md section)
@@ -145,4 +157,16 @@ MANIFEST_TEXT = {
         note='trusted: Lean kernel + standard axioms; templates; integer amounts; known finding F4 listed in KNOWN_FINDINGS.json',
         technique='Lean 4 invariant/refinement proof over all action sequences + exact whole-machine differential traces + Lean trace judge',
         design_ref='6 (C12), 7 (F4), 3, 4.B'),
+    'C01': dict(
+        level='Lean 4 theorems about the event loop for every behaviour of the activities that respects schedule\'s assertion (Layer K): '
+              'wait queue stays sorted and in the future (pushBucket_sorted, apply_ok), the clock never decreases and moves only when '
+              'the current step is drained (next_run, next_advance), the bucket that runs when the clock reads t is the bucket keyed t '
+              '(advance_runs_bucket_of_new_time), scheduling appends to the end of exactly its bucket (pushBucket_bucket), a delay\'s '
+              'wake-up lands at time+d and a date\'s at the date itself (tie_schedule_delay/at, delay_wakeup_key). Tied to loop.py/waitq.py '
+              'by regenerated templates; the executable whole machine reproduces the real usim to the turn on timing programs '
+              '(rational and float time); the Lean judge checks monotonicity and the resume time of every timed wait and delayed spawn '
+              'on implementation traces.',
+        note='trusted: Lean kernel + standard axioms; templates; heapq/sortedcontainers by contract; Layer K assumes the schedule guard',
+        technique='Lean 4 invariant proof of the event loop for arbitrary behaviours + exact whole-machine differential traces + Lean trace judge',
+        design_ref='6 (C01), 3.2, 4.B'),
 }
